@@ -93,14 +93,14 @@ def main():
                 for ln in (res.get(p, {}).get("lines") or [])[:2]:
                     print("     ", ln[:200])
             results.append(res)
-    rdir = os.path.join(VERIF, "seeded", ".results")
+    rdir = os.path.join(VERIF, "seeded", ".results" if tier == "quick" else ".results-thorough")
     os.makedirs(rdir, exist_ok=True)
     for r in results:  # one file per change: parallel invocations never write the same file
         with open(os.path.join(rdir, f"{r['kind']}-{r['name']}.json"), "w") as f:
             json.dump(r, f, indent=1)
     allr = [json.load(open(os.path.join(rdir, fn))) for fn in sorted(os.listdir(rdir)) if fn.endswith(".json")]
     allr = [r for r in allr if os.path.isdir(os.path.join(VERIF, r["kind"], r["name"]))]
-    with open(os.path.join(VERIF, "seeded", "RESULTS.json"), "w") as f:
+    with open(os.path.join(VERIF, "seeded", "RESULTS.json" if tier == "quick" else "RESULTS-thorough.json"), "w") as f:
         json.dump({"seed": os.environ.get("VERIF_SEED", "default"), "results": allr}, f, indent=1)
     bad = [r for r in results if r.get("detected") is False or r.get("quiet") is False or "error" in r]
     sys.exit(1 if bad else 0)
